@@ -289,12 +289,16 @@ def specs_callbacks(ctx, kinds, cfg=None):
         [dict(on_done_script=['done', 'meta', 'set_exception', 'cancel', 'result'])],
         [dict(on_queued_script=['done', 'meta', 'cancel'])],
         [dict(on_queued_script=['done', 'meta']), dict(raise_in=['queued'])],
+        # duck-typed subscribers that implement only some of the callbacks, in front of a full one
+        [dict(only=['progress']), dict()],
+        [dict(only=['done']), dict(), dict(only=['queued'])],
     ]
     for ts in kinds:
         for v in variants:
             out.append(dict(transfers=[dict(ts, subs=v)], cfg=cfg, chooser=chooser(rng, n)))
             n += 1
         if ts['kind'] in ('download', 'copy'):
+            out.append(dict(transfers=[dict(ts, subs=[dict(only=['done']), dict(provide_size=ts['size'])])], cfg=cfg, chooser=chooser(rng, n)))
             out.append(dict(transfers=[dict(ts, subs=[dict(provide_size=ts['size'])])], cfg=cfg, chooser=chooser(rng, n)))
             out.append(dict(transfers=[dict(ts, size=0, subs=[dict(provide_size=0)])], cfg=cfg, chooser=chooser(rng, n + 1)))
     return out
